@@ -105,6 +105,24 @@ func TestC02Rapid(t *testing.T) {
 		if got != want {
 			fail(fmt.Sprintf("result differs from applying the combined edit list: %s", firstDiff(want, got)))
 		}
+		// the cache is used again: the same request into an equal OCI spec, and a one-device request,
+		// must not be influenced by the earlier injection
+		again := gen.CloneOCI(before)
+		if _, err := cache.InjectDevices(again, req...); err != nil || gen.OCIImage(again) != want {
+			fail(fmt.Sprintf("repeating the request on the same cache gives another result: %v %s", err, firstDiff(want, gen.OCIImage(again))))
+		}
+		last := req[len(req)-1]
+		wl := r.Devices[last]
+		var single specs.ContainerEdits
+		appendEdits(&single, &wl.File.Spec.ContainerEdits)
+		appendEdits(&single, &wl.Device.ContainerEdits)
+		expSingle, gotSingle := gen.CloneOCI(before), gen.CloneOCI(before)
+		if err := (&cdi.ContainerEdits{ContainerEdits: jsonCloneEdits(canonJSON(&single))}).Apply(expSingle); err != nil {
+			t.Fatalf("VERIF-HARNESS: %v", err)
+		}
+		if _, err := cache.InjectDevices(gotSingle, last); err != nil || gen.OCIImage(gotSingle) != gen.OCIImage(expSingle) {
+			fail(fmt.Sprintf("after the first injection, injecting %s alone on the same cache differs from applying its own edit list: %v %s", last, err, firstDiff(gen.OCIImage(expSingle), gen.OCIImage(gotSingle))))
+		}
 		// no marker of a device that was not requested, of a shadowed file or of an uninvolved file
 		for _, d := range l.Pool {
 			all := []map[string]*layout.File{d.Files}
